@@ -338,7 +338,16 @@ def _ma_val(serials, field, agent_i, kind, vect):
     return mk(4 * agent_i, shp[0])
 
 
-def ma_args(serials, kind, vect):
+def ma_args(serials, kind, vect, order="fwd"):
+    """order="rev": the per-field dicts list the agents in different key orders (reward/done reversed) - a dict is
+    looked up by agent id, so key order must not matter"""
+    out = _ma_args(serials, kind, vect)
+    if order == "rev":
+        out = tuple(dict(reversed(list(d.items()))) if j in (1, 2, 4) else d for j, d in enumerate(out))
+    return out
+
+
+def _ma_args(serials, kind, vect):
     st = {a: _ma_val(serials, 1, i, kind, vect) for i, a in enumerate(AGENTS)}
     ns = {a: _ma_val(serials, 3, i, kind, vect) for i, a in enumerate(AGENTS)}
     def sc(field, i):
@@ -396,13 +405,15 @@ def canon_multi(h: HM):
     ages = []
     for e in h.buf.memory:
         s, prob = ma_decode_experience(e, h.kind)
-        ages.append(None if prob else h.total - s)
+        # the key order of the stored dicts is part of the state: it must not matter, which is what is being checked
+        ages.append(None if prob else (h.total - s, next(iter(e.reward)) != AGENTS[0]))
     return (len(h.buf), tuple(ages))
 
 
 def ops_multi(h: HM):
-    ops = [{"op": "save", "w": 1, "vect": False}]
+    ops = [{"op": "save", "w": 1, "vect": False}, {"op": "save", "w": 1, "vect": False, "order": "rev"}]
     ops += [{"op": "save", "w": w, "vect": True} for w in (1, 2, 3)]
+    ops += [{"op": "save", "w": 2, "vect": True, "order": "rev"}]
     n = len(h.buf)
     for b in range(1, n + 1):
         for pick in ("first", "last", "seed0"):
@@ -419,7 +430,7 @@ def make_apply_multi(p: Partial, cfg):
         if op["op"] == "save":
             w = op["w"]
             serials = list(range(h.total, h.total + w))
-            args = ma_args(serials, h.kind, op["vect"])
+            args = ma_args(serials, h.kind, op["vect"], op.get("order", "fwd"))
             try:
                 h.buf.save_to_memory(*args, is_vectorised=op["vect"])
             except Exception as e:
